@@ -95,6 +95,31 @@ func enumInputs(x *ctx, withCycles bool, emit func(fam, name, src string, flags 
 		}
 	}
 
+	// (b2) sources that are not valid UTF-8: every byte prefix of a corpus program that cuts a multi-byte
+	// character, and ill-formed byte sequences at the start, end and middle of small hosts
+	nCut := 0
+	for _, p := range corpus {
+		b := []byte(p.Src)
+		for i := 1; i < len(b); i++ {
+			if b[i] >= 0x80 && b[i] < 0xC0 { // continuation byte: the prefix b[:i] ends inside a character
+				emit("prefix-byte-midchar", p.Name, string(b[:i]), []string{"-i"})
+				emit("prefix-byte-midchar", p.Name, string(b[:i])+"\n", nil)
+				nCut++
+			}
+		}
+	}
+	bounds["mid_character_cuts"] = nCut
+	tails := []string{"\xE9", "\xE3\x81", "\xE3", "\xFF", "\xC3", "\xF0\x9F\x98", "\x80", "\xFF\xFE", "\xED\xA0\x80"}
+	hosts := []string{"x = 1", "# c", "s = \"a", "s = 'a'", "def m\nend", ":a", "a.b", "1.5", "x = [1]", "@v", "%w[a", "x = <<~E\nabc", "p(1)", "class K\nend"}
+	for _, h := range hosts {
+		for _, t := range tails {
+			for _, src := range []string{h + t, h + t + "\n", t + h + "\n", h + "\n" + t + "\n" + h + "\n", "# " + t + "\n" + h + "\n", "\"" + t + "\"\n" + h, h + " " + t} {
+				emit("ill-formed-bytes", file, src, []string{"-i"})
+			}
+		}
+	}
+	bounds["ill_formed_byte_programs"] = len(hosts) * len(tails) * 7
+
 	// (c) corpus single deviations
 	nDevProgs := 60
 	if thorough {
